@@ -600,7 +600,7 @@ Definition plan_stage (s : stage) (simple : bool) (cur : planner) : option plann
   | PParser fn ps => Some (PParserP fn ps cur)
   | PUnwrap l => Some (PUnwrapP l cur)         (* UseTimeSeriesTable = planner.fastUnwrap, which is never set *)
   | PDrop ps => Some (if simple then cur else PDropP ps cur)
-  | PLabelFormat => Some cur                   (* no branch of planSpl handles label_format *)
+  | PLabelFormat => None                       (* NotSupportedError: no planner is wired for label_format *)
   end.
 
 Fixpoint plan_spl (ppl : list stage) (simple renew : list bool) (i : nat) (lji : option nat) (fp cur : planner) : option planner :=
